@@ -8,6 +8,7 @@
 import Yabgp.Lemmas.Compose
 import Yabgp.Props.C09
 import Yabgp.Props.C07a
+import Yabgp.Props.C07b
 
 namespace Yabgp
 open Spec
